@@ -32,11 +32,45 @@ func singlePath(c *core.Ctx, rule, construct string, fn *ssa.Function) *ir.Path 
 		return nil
 	}
 	ps := an.AllPaths()
+	if q := boolIdentity(ps); q != nil {
+		ps = []*ir.Path{q}
+	}
 	if len(ps) != 1 || ps[0].Exit != ir.ExitReturn {
 		c.Fail(rule, construct, fn.Pos(), "expected one straight-line returning path, found %d paths", len(ps))
 		return nil
 	}
 	return ps[0]
+}
+
+// boolIdentity: two paths that are one computation followed by `if t { return true } else { return false }` are the
+// single path returning t (the long spelling of `return t`); nil when ps is not of that form.
+func boolIdentity(ps []*ir.Path) *ir.Path {
+	if len(ps) != 2 {
+		return nil
+	}
+	a, b := ps[0], ps[1]
+	ra, okA := retBool(a)
+	rb, okB := retBool(b)
+	if !okA || !okB || ra == rb || len(a.Steps) != len(b.Steps) || len(a.Steps) == 0 {
+		return nil
+	}
+	n := len(a.Steps)
+	if a.Steps[n-1].Kind == ir.KReturn && b.Steps[n-1].Kind == ir.KReturn {
+		n--
+	}
+	if n == 0 {
+		return nil
+	}
+	for i := 0; i < n-1; i++ {
+		if a.Steps[i].String() != b.Steps[i].String() {
+			return nil
+		}
+	}
+	la, lb := &a.Steps[n-1], &b.Steps[n-1]
+	if la.Kind != ir.KBranch || lb.Kind != ir.KBranch || !ir.Same(la.Atom, lb.Atom) || la.Pol == lb.Pol || la.Pol != ra || lb.Pol != rb {
+		return nil
+	}
+	return &ir.Path{From: a.From, Exit: ir.ExitReturn, Steps: a.Steps[:n-1], Results: []*ir.Term{la.Atom}, End: a.End}
 }
 
 func runC17(c *core.Ctx) {
